@@ -406,6 +406,7 @@ def run(R):
     _handles_stream(R, rng, quick)
     _sharded_stream(R, rng, quick)
     _magic_stream(R, rng, quick)
+    _optimised_interpreter_stream(R, rng)
     R.extra["jpeg_max_abs_error_observed"] = int(jpeg_err)
     R.notes.append("JPEG: only shape/dtype and a loose error bound (<= 64 grey levels on smooth data) are "
                    "checked; the bound is a test, not a theorem (libjpeg is outside the model)")
@@ -668,6 +669,48 @@ def _magic_stream(R, rng, quick):
                     R.violation("a raw chunk that starts with magic bytes cannot be written and read back", case,
                                 {"exc": f"{type(e).__name__}: {e}"[:200]})
     R.count("magic-stream:cases", k) if False else R.count("magic-stream")
+
+
+def _optimised_interpreter_stream(R, rng):
+    """The rejection of off-grid positions in a child interpreter with assertions disabled (python -O /
+    PYTHONOPTIMIZE): the same positions must be rejected and nothing stored."""
+    import subprocess
+    import sys
+    jobs = []
+    for _ in range(60):
+        size = [rng.randrange(1, 12) for _ in range(3)]
+        cs = [rng.choice([1, 2, 3, 4]) for _ in range(3)]
+        c, kind = mutate_coords(rng, size, cs)
+        jobs.append([size, cs, list(c), on_grid_ref(size, [cs], c)])
+    d = os.path.join(R.tmp, "opt")
+    os.makedirs(d)
+    child = ("import json,sys,os\nimport numpy as np\nfrom neuroglancer_scripts import accessor, precomputed_io\n"
+             "out=[]\nfor k,(size,cs,c,_w) in enumerate(json.load(sys.stdin)):\n"
+             "    info={'type':'image','data_type':'uint8','num_channels':1,'scales':[{'key':'s','size':size,"
+             "'chunk_sizes':[cs],'encoding':'raw','resolution':[1,1,1],'voxel_offset':[0,0,0]}]}\n"
+             "    dd=os.path.join(sys.argv[1],str(k))\n"
+             "    pio=precomputed_io.get_IO_for_new_dataset(info,accessor.get_accessor_for_url(dd,{}))\n"
+             "    shape=(1,max(c[5]-c[4],1),max(c[3]-c[2],1),max(c[1]-c[0],1))\n"
+             "    try:\n        pio.write_chunk(np.zeros(shape,dtype='uint8'),'s',tuple(c)); w='stored'\n"
+             "    except Exception as e:\n        w=type(e).__name__\n"
+             "    n=sum(len(f) for r,_d,f in os.walk(dd))-1\n"
+             "    try:\n        pio.read_chunk('s',tuple(c)); r='read'\n"
+             "    except Exception as e:\n        r=type(e).__name__\n"
+             "    out.append([w,n,r])\nprint(json.dumps(out))\n")
+    r = subprocess.run([sys.executable, "-O", "-c", child, d], input=json.dumps(jobs).encode(), stdout=subprocess.PIPE,
+                       stderr=subprocess.PIPE, timeout=120, env=dict(os.environ, PYTHONOPTIMIZE="1"))
+    if r.returncode != 0:
+        R.violation("python -O child failed", {}, {"stderr": r.stderr.decode()[-300:]})
+        return
+    for (size, cs, c, want), (w, n, rd) in zip(jobs, json.loads(r.stdout.decode().splitlines()[-1])):
+        case = {"python": "-O", "size": size, "chunk_sizes": [cs], "coords": c}
+        R.case(case, nontrivial=not want)
+        R.count(f"python-O:{'on' if want else 'off'}-grid:{w}")
+        if want and (w != "stored" or n != 1 or rd != "read"):
+            R.violation("python -O: a valid chunk position was not written and read back", case, {"write": w, "read": rd})
+        if not want and (w == "stored" or n != 0 or rd == "read"):
+            R.violation("python -O: a position that is not on the chunk grid was stored or read instead of being "
+                        "rejected", case, {"write": w, "files": n, "read": rd})
 
 
 def precomputed_ok(info):
